@@ -804,6 +804,17 @@ where
 
         self.check_timeouts(Some(exchange.id()))?;
 
+        // The check above might have found the fail-safe timed out and rolled the fabric
+        // of this very session back (the session is then only kept - marked as expired -
+        // so that an answer already under way can still leave). The request that has
+        // just arrived must not be carried out on behalf of a fabric that is gone.
+        let session_expired = exchange.with_state(|state| {
+            Ok::<_, Error>(exchange.id().session(&mut state.sessions).is_expired())
+        })?;
+        if session_expired {
+            return Err(ErrorCode::NoSession.into());
+        }
+
         // TODO: Handle the cases where we receive a timeout request
         // before read and subscribe. This is probably not allowed.
 
